@@ -923,7 +923,9 @@ fn keyfn(kind: u32, v: &Val) -> Val {
 pub(crate) fn c20_group_by(max_len: u32, threads_form: bool) {
   GROUPS.with(|g| g.borrow_mut().clear());
   KEPT.with(|g| g.borrow_mut().clear());
-  let kind = e::choose(4);
+  // key kinds 0..3 are pure functions of the item; 4 is a stateful discriminator (round robin over 2 groups: the
+  // n-th call answers n mod 2), which must be asked exactly once per item for the routing to be what it says
+  let kind = e::choose(5);
   let script = draw_script(max_len, true);
   e::note(format!("group_by key{} {} input [{}]", kind, if threads_form { "SubjectThreads" } else { "Subject" }, script.show()));
   let outer = fresh_probe();
@@ -959,7 +961,13 @@ pub(crate) fn c20_group_by(max_len: u32, threads_form: bool) {
     *late = Some((gi, a, b));
   }
   if !threads_form {
-    let mk = |src: Obs| src.group_by::<_, Val, Subject<'static, Val, Val>>(move |v: &Val| keyfn(kind, v));
+    let mk = |src: Obs| {
+      let mut calls = 0i64;
+      src.group_by::<_, Val, Subject<'static, Val, Val>>(move |v: &Val| {
+        calls += 1;
+        if kind == 4 { Val::c((calls - 1) % 2) } else { keyfn(kind, v) }
+      })
+    };
     if hot {
       if outer_take > 0 {
         let _u = rxrust::ops::take::TakeOp::new(mk(cat::hot_kind(0, hk)), outer_take).actual_subscribe(GroupOuter::<Subject<'static, Val, Val>> { outer, _s: Default::default() });
@@ -990,7 +998,13 @@ pub(crate) fn c20_group_by(max_len: u32, threads_form: bool) {
       let _f = mk(cat::cold(script.items.clone(), script.term.clone(), 0)).flat_map(|g| g).actual_subscribe(flat);
     }
   } else {
-    let mk = |src: ObsT| src.group_by::<_, Val, SubjectThreads<Val, Val>>(move |v: &Val| keyfn(kind, v));
+    let mk = |src: ObsT| {
+      let mut calls = 0i64;
+      src.group_by::<_, Val, SubjectThreads<Val, Val>>(move |v: &Val| {
+        calls += 1;
+        if kind == 4 { Val::c((calls - 1) % 2) } else { keyfn(kind, v) }
+      })
+    };
     if hot {
       if outer_take > 0 {
         let _u = rxrust::ops::take::TakeOp::new(mk(cat::hot_kind_t(0, hk)), outer_take).actual_subscribe(GroupOuter::<SubjectThreads<Val, Val>> { outer, _s: Default::default() });
@@ -1024,8 +1038,9 @@ pub(crate) fn c20_group_by(max_len: u32, threads_form: bool) {
   // oracle: partition by key in order of first appearance
   let mut keys: Vec<Val> = vec![];
   let mut parts: Vec<Vec<Val>> = vec![];
-  for v in &script.items {
-    let k = keyfn(kind, v);
+  let key_of = |i: usize, v: &Val| if kind == 4 { Val::c(i as i64 % 2) } else { keyfn(kind, v) };
+  for (i, v) in script.items.iter().enumerate() {
+    let k = key_of(i, v);
     match keys.iter().position(|x| *x == k) {
       Some(i) => parts[i].push(v.clone()),
       None => {
@@ -1065,7 +1080,7 @@ pub(crate) fn c20_group_by(max_len: u32, threads_form: bool) {
   // the late listeners: the later items of their key, then the source's terminal
   if let Some((gi, a, b)) = late {
     let key = &keys[gi];
-    let later: Vec<Val> = script.items.iter().enumerate().filter(|(i, v)| *i >= late_at && keyfn(kind, v) == *key).map(|(_, v)| v.clone()).collect();
+    let later: Vec<Val> = script.items.iter().enumerate().filter(|(i, v)| *i >= late_at && key_of(*i, v) == *key).map(|(_, v)| v.clone()).collect();
     let joined_before_terminal = late_at <= script.items.len();
     let want = model::Script { items: later, term: if joined_before_terminal { script.term.clone() } else { Tm::None } };
     for (n, q) in [a, b].iter().enumerate() {
